@@ -170,6 +170,9 @@ SongF == {"solo", "td", "cd", "nt"}                \* options "of the current se
 \* everything a call that reports failure must leave alone
 RejF == PersistF \cup HookF \cup {"nco", "ho"}
 
+\* while the VGM dumper is the emulator the loop-hook slots of the sequencer belong to it
+DumperF(o) == IF o.emu = Dumper THEN {"ils", "ile"} ELSE {}
+
 \* what a call may change
 Target(ev) ==
   CASE ev.e = "SetNumChips" -> {"nc", "nco"}   [] ev.e = "SwitchEmulator" -> {"emun", "emu"}
@@ -218,7 +221,7 @@ Lab(pfx, S) == { pfx \o f : f \in S }
 \* accepted values stick / rejected calls change nothing / everything else persists
 CallFails(pre, ev, r, post, R) ==
   IF Failed(ev, r)
-  THEN Lab("reject-changed:", { f \in (IF ev.e = "OpenMidi" THEN RejF \ SongF ELSE RejF) : post[f] # pre[f] })
+  THEN Lab("reject-changed:", { f \in (IF ev.e = "OpenMidi" THEN RejF \ SongF ELSE RejF) \ DumperF(pre) : post[f] # pre[f] })
        \cup (IF ev.e \in {"OpenBank", "OpenMidi"} /\ "er" \in DOMAIN post /\ post.er # 1 THEN {"reject-noerror"} ELSE {})
   ELSE Lab("stick:", { x[1] : x \in { y \in Exp(ev, pre, R) : post[y[1]] # y[2] } })
        \cup Lab("persist:", { f \in PersistF \ Target(ev) : post[f] # pre[f] })
@@ -237,7 +240,7 @@ ReloadFails(ev, r, R) == IF ev.e = "OpenMidi" /\ ev.bad = 0 /\ R.hasBank /\ R.af
 ReloadCounts(ev, R) == ev.e = "OpenMidi" /\ ev.bad = 0 /\ R.hasBank /\ R.afterReject
 
 \* the twin received the same history without the calls that reported failure
-TwinFails(a, b) == Lab("twin:", { f \in RejF : a[f] # b[f] })
+TwinFails(a, b) == Lab("twin:", { f \in RejF \ DumperF(a) : a[f] # b[f] })
 
 \* rendered phrase: identical on the twin, and identical to the previous probe when only rejected calls lie between
 AudioComparable(o) == o.emu \notin {2, Dumper}        \* GENS: address-dependent LSBs; the dumper renders nothing
